@@ -1,7 +1,7 @@
 (* C20 — a run depends only on its own arguments. *)
 From Coq Require Import List Arith.
 Import ListNotations.
-From Yaqs Require Import Model.Params Proofs.ParamsP.
+From Yaqs Require Import Model.Params Proofs.ParamsP Model.ObjStore Proofs.ObjStoreP.
 
 (* strong / analog front-ends: whatever sequence of noisy and noise-free runs was made before on the same parameter
    object, a run executes as many trajectories as a fresh object would *)
@@ -34,6 +34,19 @@ Theorem C20_columns_history_independent : forall h labelled p,
   snd (run_layers labelled (layers_history h p)) = if sample_layers p then labelled + 2 else 1.
 Proof. exact layers_history_independent. Qed.
 Print Assumptions C20_columns_history_independent.
+
+(* the objects passed in are left unchanged: simulator.run samples the noise model into a fresh object (and deep-copies states and
+   circuits per trajectory); whatever sequence of writes and prunings the back-ends then perform on objects allocated by the run,
+   every object that existed when the run started keeps all its fields *)
+Theorem C20_inputs_unchanged : forall ops n0 h, n0 <= length h -> forallb (owned n0) ops = true ->
+  forall i, i < n0 -> nth_error (exec ops h) i = nth_error h i.
+Proof. exact caller_objects_unchanged. Qed.
+Print Assumptions C20_inputs_unchanged.
+Theorem C20_sampled_noise_model_unchanged : forall h nm internal,
+  forallb (owned (length h)) (internal (length h)) = true ->
+  forall i, i < length h -> nth_error (run_on_sample h nm internal) i = nth_error h i.
+Proof. exact sampled_run_leaves_model. Qed.
+Print Assumptions C20_sampled_noise_model_unchanged.
 
 Example C20_example : snd (run_strong true (strong_history [false; true; false] {| num_traj := 7; traj_rows := 0 |})) = 7
   /\ snd (run_weak false (weak_history [true] {| shots := 5; meas := repeat None 5 |})) = 5.
